@@ -262,8 +262,14 @@ inet6_mask2len(const in6_addr_t *mask) {
 	for (i = 32; -1 != i && mask->s6_addr32[j] < pref_to_mask[i]; i --)
 		;
 
-	if (-1 < i && mask->s6_addr32[j] == pref_to_mask[i])
+	if (-1 < i && mask->s6_addr32[j] == pref_to_mask[i]) {
+		/* All words after first not full one must be zero. */
+		for (int k = (j + 1); 4 > k; k ++) {
+			if (0 != mask->s6_addr32[k])
+				return (0); /* Non contiguous mask. */
+		}
 		return (((j * 32) + i));
+	}
 
 	return (0);
 }
